@@ -8,7 +8,7 @@ MANIFEST_ENTRY = dict(
     technique="TLC model checking of spec/MCWallet.tla + TLC-generated behaviours replayed on the real code + TLC trace validation (spec/TraceWallet.tla)",
     note=WALLET_NOTE)
 
-PARAMS = dict(quick_cfgs=['MC_C07_quick.cfg', 'MC_C07_acct.cfg'], thorough_cfgs=['MC_C07.cfg', 'MC_C07_late.cfg', 'MC_C07_acct.cfg'], quick_n=60, thorough_n=500, focus=['receive', 'tamper', 'build_coinbase', 'foreign'],
+PARAMS = dict(quick_cfgs=['MC_C07_quick.cfg', 'MC_C07_acct.cfg'], thorough_cfgs=['MC_C07.cfg', 'MC_C07_late.cfg', 'MC_C07_acct.cfg'], quick_n=110, thorough_n=500, focus=['receive', 'tamper', 'build_coinbase', 'foreign'],
               setup=STD_SETUP, assumptions=WALLET_ASSUME, extra_behaviours=[])
 
 
